@@ -405,6 +405,30 @@ pub fn run(cfg: &RunCfg, rep: &mut Report) {
             let s = Names::key(&world, &KeyRef { id: rng.below(world.keys.len()), form });
             let pk = |s: &str| DescriptorPublicKey::from_str(s).map_err(|e| e.to_string());
             roundtrip(rep, i, "DescriptorPublicKey", &s, &pk);
+            // the same key with a key origin
+            let hm = if rng.coin() { "'" } else { "h" };
+            let origin = match rng.below(3) {
+                0 => format!("[{:08x}]", rng.next_u64() as u32),
+                1 => format!("[{:08x}/{}{}/{}]", rng.next_u64() as u32, rng.below(100), hm, rng.below(100)),
+                _ => format!("[{:08x}/86{}/0{}/{}{}]", rng.next_u64() as u32, hm, hm, rng.below(5), hm),
+            };
+            let so = format!("{}{}", origin, s);
+            if let Some((_, printed)) = roundtrip(rep, i, "DescriptorPublicKey-with-origin", &so, &pk) {
+                // the origin must still be there, with the hardened marker normalised at most
+                let norm = |x: &str| x.replace('h', "'");
+                if !norm(&printed).starts_with(&norm(&origin)) {
+                    rep.violation(i, "C10:key-origin-lost".into(), format!("{} prints as {}", so, printed));
+                }
+            }
+            if form != KeyForm::Uncompressed {
+                let d = if form == KeyForm::XOnly { format!("tr({},pk({}))", so, s) } else { format!("wpkh({})", so) };
+                let dp = |s: &str| Descriptor::<DescriptorPublicKey>::from_str(s).map_err(|e| e.to_string());
+                if let Some((_, printed)) = roundtrip(rep, i, "Descriptor-with-key-origin", &d, &dp) {
+                    if !printed.replace('h', "'").contains(&origin.replace('h', "'")) {
+                        rep.violation(i, "C10:key-origin-lost".into(), format!("{} prints as {}", d, printed));
+                    }
+                }
+            }
         }
 
         // D. policies
@@ -416,6 +440,60 @@ pub fn run(cfg: &RunCfg, rep: &mut Report) {
         roundtrip(rep, i, "concrete-policy", &p.concrete(&nm), &pc);
         let ps = |s: &str| Semantic::<String>::from_str(s).map_err(|e| e.to_string());
         roundtrip(rep, i, "semantic-policy", &p.semantic(&nm), &ps);
+
+        // D2. semantic policies with n-ary and/or/thresh: the library's reading of the text must mean
+        // what the text means (judged by the harness's own parser + truth tables), and objects that
+        // did not come from the parser (lifted, normalized) must survive printing
+        {
+            let pcfg = PolGenCfg { max_leaves: 7, n_keys: 6, n_hash: 2, concrete: false, constants: rng.chance(1, 4), repeat_atoms: rng.coin(), timelocks: true, hashes: true, max_depth: 3, timelock_heavy: false };
+            let leaves = 1 + rng.below(7);
+            let p2 = PolGen::new(&mut rng, pcfg).gen(leaves, 0);
+            let s0 = p2.semantic(&nm);
+            if let Some((obj, s1)) = roundtrip(rep, i, "semantic-policy-nary", &s0, &ps) {
+                let (kl, hl) = crate::pol::abstract_lookup();
+                let lk = crate::pol::PolLookup { key: &kl, hash: &hl };
+                match (crate::pol::parse_pol(&s0, &lk), crate::pol::parse_pol(&s1, &lk)) {
+                    (Ok(m0), Ok(m1)) => {
+                        let mut atoms = m0.atoms();
+                        for a in m1.atoms() {
+                            if !atoms.contains(&a) {
+                                atoms.push(a);
+                            }
+                        }
+                        if atoms.len() <= 14 {
+                            let mut diff = None;
+                            for mask in 0u32..(1u32 << atoms.len()) {
+                                let sigma = |a: &crate::pol::Atom| mask & (1 << atoms.iter().position(|x| x == a).unwrap()) != 0;
+                                if m0.eval(&sigma) != m1.eval(&sigma) {
+                                    diff = Some(mask);
+                                    break;
+                                }
+                            }
+                            match diff {
+                                Some(mask) => rep.violation(i, "C10:text-meaning-changed:semantic-policy".into(), format!("{} is read and printed back as {} which means something else (atoms {:?}, assignment {:#b})", s0, s1, atoms, mask)),
+                                None => rep.count("text-meaning-preserved:semantic-policy"),
+                            }
+                        }
+                    }
+                    (_, Err(e)) => rep.violation(i, "C10:printed-policy-unreadable-by-model".into(), format!("{} -> {} : {}", s0, s1, e)),
+                    _ => rep.count("model-parser-rejects-generated-policy"),
+                }
+                // objects not produced by the parser
+                let objs = guarded(std::panic::AssertUnwindSafe(|| vec![obj.clone().normalized(), obj.clone().at_age(bitcoin::relative::LockTime::from_height(150)), obj.clone().at_lock_time(bitcoin::absolute::LockTime::from_consensus(500_000_005))]));
+                if let Ok(objs) = objs {
+                    for o in objs {
+                        rep.eval();
+                        let printed = o.to_string();
+                        match guarded(|| ps(&printed)) {
+                            Ok(Ok(back)) if back == o => rep.count("object-roundtrip:semantic-policy(normalized/at_age/at_lock_time)"),
+                            Ok(Ok(back)) => rep.violation(i, "C10:object-roundtrip:semantic-policy".into(), format!("object {:?} prints as {} which parses to {:?}", o, printed, back)),
+                            Ok(Err(e)) => rep.violation(i, "C10:own-output-rejected:semantic-policy-object".into(), format!("{} : {}", printed, e)),
+                            Err(m) => rep.violation(i, format!("C10:panic:parse:semantic-policy-object:{}", norm_loc(&last_panic_loc())), format!("{} on {}", m, printed)),
+                        }
+                    }
+                }
+            }
+        }
 
         // E. wallet policies (templates) from multipath descriptors
         {
